@@ -1,5 +1,6 @@
 #!/bin/bash
-cd /verif
+cd "$(cd "$(dirname "$0")/.." && pwd)"
+mkdir -p work
 for c in "$@"; do
   s=$(date +%s); ./check.sh $c thorough > work/t-$c.log 2>&1; rc=$?; e=$(date +%s)
   echo "$c rc=$rc $((e-s))s $(grep -E "^C[0-9]+ thorough" work/t-$c.log | cut -c1-100)"
